@@ -2,7 +2,7 @@
 from verif import Case
 from gen_util import *
 import pyref
-from props.c07 import session_case, step_table_cases, sibling_key_cases
+from props.c07 import session_case, step_table_cases, sibling_key_cases, typed_at_every_position_cases
 
 MODULES = ["WowSrp.Props.C08", "WowSrp.Props.Source.C08"]
 THEOREMS = ["C08_constants", "C08_seed_same", "C08_seed_value", "C08_key_derivation", "C08_keys_equal", "C08_fresh_inv", "C08_step_bounds", "C08_recurrence", "C08_recurrence_vanilla", "C08_chunking", "C08_empty_call", "C08_inverse_step", "C08_roundtrip", "C08_source_layout"]
@@ -26,6 +26,7 @@ def generate(rng, tier):
         for i in range(8):
             cs.append(session_case(rng, special_key(rng), rbytes(rng, 1 << 20), "1MiB-stream", "t"))
     cs += sibling_key_cases(rng, "t")
+    cs += typed_at_every_position_cases(rng, "t")
     if tier == "thorough":
         cs += step_table_cases(rng, "t")
     return cs
